@@ -34,6 +34,23 @@ claim("C03",
       "Known finding D14 (array spread via concat).",
       "Lean 4 proof (mutual structural induction over the AST, table side conditions by decide) + differential correspondence + V8 oracle")
 
+claim("C05",
+      "Lean 4 theorems: the model of the sub-expression iterator (state machine (inner,index) incl. the hole-skipping loop) yields every immediate child "
+      "of every expression form (subExprs_complete); convert_scopes resolves every in-scope data field to the innermost scope index and nothing else, at every "
+      "position (convert_resolves, findScope_innermost). Tied to iter_sub_expr!/convert_scopes by differential runs through cfg hooks; an independent "
+      "resolver and the render-vs-reference oracle with colliding names run against the real code.",
+      "Trusted: Lean kernel; axioms ⊆ {propext, Classical.choice, Quot.sound}; differential tie; reference renderer; node runner. The scope-stack push/truncate "
+      "discipline of the tag traversal is exercised by the oracle, not yet modelled.",
+      "Lean 4 proof (structural induction / iterator invariant) + differential correspondence + reference-render oracle")
+claim("C04",
+      "Lean 4 theorems for the proved part: the wx:if/elif/else branch selector statement is read by JavaScript as c1?1:c2?2:…:0 for all conditions "
+      "(if_selector_derives, on top of gen_derives) and dash_to_camel name normalisation facts; models tied by correspondence streams (selector statement "
+      "extracted from real generated code; dash_to_camel hook). End-to-end: generated code executed under the real ProcGenWrapper vs a reference renderer "
+      "written from the WXML semantics over a grammar of all element kinds / attribute families in varied concrete syntax.",
+      "PARTIAL proof: the end-to-end refinement tree(run(gen t) D) = render t D is established by the oracle only. Trusted: Lean kernel; axioms ⊆ {propext, "
+      "Classical.choice, Quot.sound}; reference renderer; node runner with stub backend (native nodes, static slots); V8.",
+      "Lean 4 proof (partial: branch selector, names) + reference-render oracle under the real runtime")
+
 ALL = ["C%02d" % i for i in range(1, 21)]
 
 def main():
